@@ -69,9 +69,17 @@ def dump (g : DiGraph) : Sexp :=
          Sexp.ofNats g.inputNodes, Sexp.ofNats g.outputNodes,
          Sexp.ofBool (decide (WF g))]
 
-/-- One builder operation: new builders and the answer line item. -/
-def stepOp (bs : Builders) (op : Sexp) : Option (Builders × Sexp) :=
+/-- One builder operation that does not touch the task table. -/
+def stepOp' (bs : Builders) (op : Sexp) : Option (Builders × Sexp) :=
   match op with
+  | .list [.atom "read", b] => do
+    let b ← b.asNat?
+    pure (bs, dump (bs.get b))
+  | .list [.atom "addouts", b, t] => do
+    let b ← b.asNat?
+    let t ← t.asNat?
+    let g := addTaskToOutputs (bs.get b) t
+    pure (bs.set b g, dump g)
   | .list [.atom "new", b] => do
     let b ← b.asNat?
     pure (bs.set b DiGraph.empty, dump DiGraph.empty)
@@ -115,10 +123,21 @@ def stepOp (bs : Builders) (op : Sexp) : Option (Builders × Sexp) :=
     pure (bs.set b3 g, dump g)
   | _ => none
 
-def runOps (ops : List Sexp) : Option (Builders × List Sexp) :=
-  ops.foldlM (fun (acc : Builders × List Sexp) op => do
-    let (bs, a) ← stepOp acc.1 op
-    pure (bs, acc.2 ++ [a])) ([], [])
+/-- One builder operation: new builders and the answer line item.  The task
+    table only changes with `(ctx b base)` (`insert_context` on a builder creates tasks). -/
+def stepOp (tb : Table) (bs : Builders) (op : Sexp) : Option (Table × Builders × Sexp) :=
+  match op with
+  | .list [.atom "ctx", b, base] => do
+    let b ← b.asNat?
+    let base ← base.asNat?
+    let (st, g) := insertContext ⟨tb, base⟩ (bs.get b)
+    pure (st.tb, bs.set b g, dump g)
+  | _ => (stepOp' bs op).map (fun r => (tb, r.1, r.2))
+
+def runOps (tb : Table) (ops : List Sexp) : Option (Table × Builders × List Sexp) :=
+  ops.foldlM (fun (acc : Table × Builders × List Sexp) op => do
+    let (tb', bs, a) ← stepOp acc.1 acc.2.1 op
+    pure (tb', bs, acc.2.2 ++ [a])) (tb, [], [])
 
 def atomS : Atom → Sexp
   | .s x => .list [.atom "s", .atom x]
@@ -148,15 +167,23 @@ def nextId (tb : Table) : Nat := (tb.map (·.1)).foldl max 0 + 1000
 def nameToKey (d : List Entry) (n : Nat) : Option Key :=
   (d.find? (fun e => e.task.name == n)).map (·.key)
 
+/-- Task table and builders after the operations of a request. -/
+def prep (ts : Sexp) (ops : List Sexp) : Option (Table × Builders) :=
+  match tasks? ts with
+  | some tb => (runOps tb ops).map (fun r => (r.1, r.2.1))
+  | none => none
+
 def handle (req : Sexp) : Sexp :=
   match req with
   | .list [.atom "build", ts, .list ops] =>
-    match tasks? ts, runOps ops with
-    | some _, some (_, out) => .list out
-    | _, _ => bad
+    match tasks? ts with
+    | some tb => match runOps tb ops with
+      | some (_, _, out) => .list out
+      | none => bad
+    | none => bad
   | .list [.atom "exec", ts, .list ops, b] =>
-    match tasks? ts, runOps ops, b.asNat? with
-    | some tb, some (bs, _), some b =>
+    match prep ts ops, b.asNat? with
+    | some (tb, bs), some b =>
       let g := bs.get b
       let (st, g') := executedWorkflow ⟨tb, nextId tb⟩ g
       let names := g'.nodes.map (fun t => (st.tb.get t).name)
@@ -176,16 +203,16 @@ def handle (req : Sexp) : Sexp :=
            d.any (fun e => e.task.static.any SArg.hazard))
         | .error _ => (.list [.atom "err", .atom "ValueError"], .list [], .atom "none", false)
       .list [Sexp.ofNats names, .list predsS, dictS dd, res, order, spec, Sexp.ofBool haz]
-    | _, _, _ => bad
+    | _, _ => bad
   | .list [.atom "call", ts, .list ops, b] =>
-    match tasks? ts, runOps ops, b.asNat? with
-    | some tb, some (bs, _), some b =>
+    match prep ts ops, b.asNat? with
+    | some (tb, bs), some b =>
       let (st, g') := calledWorkflow ⟨tb, nextId tb⟩ (bs.get b)
       dictS (asDaskDict st.tb g')
-    | _, _, _ => bad
+    | _, _ => bad
   | .list [.atom "replay", ts, .list ops, b, ord] =>
-    match tasks? ts, runOps ops, b.asNat?, nats? ord with
-    | some tb, some (bs, _), some b, some ord =>
+    match prep ts ops, b.asNat?, nats? ord with
+    | some (tb, bs), some b, some ord =>
       let (st, g') := executedWorkflow ⟨tb, nextId tb⟩ (bs.get b)
       match asDaskDict st.tb g' with
       | .ok d =>
@@ -195,7 +222,7 @@ def handle (req : Sexp) : Sexp :=
           | none => .atom "inadmissible"
         | none => .atom "unknown-task"
       | .error _ => .list [.atom "err", .atom "ValueError"]
-    | _, _, _, _ => bad
+    | _, _, _ => bad
   | _ => bad
 
 def main : IO Unit := runDriver (fun (_ : Unit) r => ((), handle r)) ()
